@@ -1306,8 +1306,7 @@ def _vectorfield(repo, col, R="R-C01-explicit"):
     col.check(set(seen) == {"lo", "hi"}, R, fi, "both neighbours contribute to the explicit vector field", "", f"updated slices: {sorted(seen)}", node=fi.node)
 
 
-def _refuse(repo, col):
-    R = "R-C01-refuse"
+def _refuse(repo, col, R="R-C01-refuse"):
     fi = repo.func(SV, "_voltage_vectorfield")
     first = None
     for st in fi.node.body:
@@ -1332,6 +1331,26 @@ def _refuse(repo, col):
                           if isinstance(n, ast.Call) and unparse(n.func).endswith("reshape") and "-1" in unparse(n)), None)
     guard = next((i for i, st in enumerate(body) if isinstance(st, ast.If) and any(isinstance(x, ast.Raise) for x in st.body)
                   and "ncomp_per_branch" in unparse(st.test)), None)
+    if guard is not None:
+        # the refusal must hold whenever ANY two branches differ -- a test of all entries, not of a sum / of one entry
+        tt = idxm.expander(repo, se).term(body[guard].test)
+        npb = lambda t: T.find(t, lambda x: x.op == "param" and x.name == "ncomp_per_branch") is not None
+        all_entries = (
+            T.find(tt, lambda x: x.op == "cmp" and x.name in (">", "!=", ">=") and len(x.args) == 2 and x.args[0].op == "call" and x.args[0].name == "len" and
+                   T.find(x.args[0], lambda y: (y.op in ("mcall", "call") and y.name in ("unique", "set")) and npb(y)) is not None) is not None or
+            T.find(tt, lambda x: x.op in ("mcall", "call") and x.name in ("any", "all") and
+                   T.find(x, lambda y: y.op == "cmp" and y.name in ("!=", "==") and npb(y)) is not None) is not None or
+            T.find(tt, lambda x: x.op == "cmp" and x.name in ("!=", "<", ">") and len(x.args) == 2 and
+                   {a_.name for a_ in x.args if a_.op in ("mcall", "call")} == {"min", "max"} and npb(x)) is not None or
+            T.find(tt, lambda x: x.op in ("mcall", "call") and x.name == "ptp" and npb(x)) is not None)
+        aggregate = T.find(tt, lambda x: x.op == "cmp" and len(x.args) == 2 and
+                           any(T.find(a_, lambda y: y.op == "binop" and y.name == "*" and npb(y)) is not None or
+                               T.find(a_, lambda y: y.op in ("mcall", "call") and y.name in ("sum", "mean", "prod") and npb(y)) is not None for a_ in x.args)) is not None
+        col.add(R, se, "forward Euler: the refusal holds whenever two branches differ in their number of compartments",
+                "DISCHARGED" if all_entries else ("VIOLATED" if aggregate else "UNDECIDED"),
+                "all entries are compared" if all_entries else
+                f"the guard is `{unparse(body[guard].test)[:80]}`: a total / an average equals the uniform one for unequal counts as well (e.g. 3, 2, 4 compartments), "
+                f"the model is then not refused and the (nbranches, -1) reshape mixes compartments of different branches", node=body[guard])
     if first_reshape is None:
         col.ok(R, se, "forward Euler: no (nbranches, -1) reshape", "no equal-length assumption", node=se.node)
     else:
